@@ -823,6 +823,47 @@ example : ∃ s1, stepOther ⟨#[], #[], fun _ => none, #[]⟩ { stack := [5#256
       .ok { s1 with stack := [BitVec.allOnes 256, 7#256], pc := s1.pc + 1 } :=
   step_mstore_mload _ _ _ _ _ rfl (by decide)
 
+/-- **MSTORE8** (Yellow Paper: μ'_m[μ_s[0]] = μ_s[1] mod 256): with `idx :: v :: rest` on the stack it fails with
+    "illegal memory access" exactly when idx + 1 exceeds u32::MAX; otherwise it pops both, advances pc, and in
+    the resulting memory byte `idx` is `v mod 256` and every other byte is the old one (0 beyond the old size). -/
+theorem step_mstore8 (env : Env) (s : St) (idx v : W) (rest : List W)
+    (hst : s.stack = idx :: v :: rest) :
+    (idx.toNat + 1 > u32Max ∧ stepOther env s 0x53 = .error .illegalMemoryAccess) ∨
+    (idx.toNat + 1 ≤ u32Max ∧ ∃ s', stepOther env s 0x53 = .ok s' ∧ s'.stack = rest ∧ s'.pc = s.pc + 1 ∧
+      s'.storage = s.storage ∧ s'.transient = s.transient ∧ s'.returnData = s.returnData ∧
+      ∀ j, s'.memory[j]! = if j = idx.toNat then UInt8.ofNat (v.toNat % 256) else s.memory[j]!) := by
+  have hstep : stepOther env s 0x53 = (match s.stack with
+    | idx :: v :: rest =>
+      match memRegion s.memory idx 1#256 with
+      | .error e => .error e
+      | .ok (m, none) => .ok { s with stack := rest, memory := m, pc := s.pc + 1 }
+      | .ok (m, some (o, _)) =>
+        .ok { s with stack := rest, memory := m.set! o (UInt8.ofNat (v.toNat % 2 ^ 32 % 256)),
+                     pc := s.pc + 1 }
+    | _ => .error .stackUnderflow) := rfl
+  rw [hstep, hst]
+  simp only []
+  rcases memRegion1 s.memory idx with ⟨h, e⟩ | ⟨h, e⟩
+  · left; rw [e]; exact ⟨h, rfl⟩
+  · right; rw [e]
+    refine ⟨h, _, rfl, rfl, rfl, rfl, rfl, rfl, ?_⟩
+    intro j
+    simp only []
+    have hv : v.toNat % 2 ^ 32 % 256 = v.toNat % 256 := by omega
+    rw [hv]
+    by_cases hj : j = idx.toNat
+    · subst hj
+      simp only [if_true]
+      rw [ByteArray.getElem!_set!_self _ _ _ (by have := memGrow_size_ge s.memory (idx.toNat + 1); omega)]
+    · simp only [hj, if_false]
+      rw [ByteArray.getElem!_set!_ne _ _ _ _ (fun e => hj e.symm), memGrow_get]
+/-- non-vacuity: MSTORE8 of 0x1ff at offset 3 on an empty memory succeeds and stores 0xff -/
+example : ∃ s', stepOther ⟨#[], #[], fun _ => none, #[]⟩ { stack := [3#256, 0x1ff#256] } 0x53 = .ok s' ∧
+    s'.memory[3]! = 0xff := by
+  rcases step_mstore8 ⟨#[], #[], fun _ => none, #[]⟩ { stack := [3#256, 0x1ff#256] } _ _ _ rfl with ⟨h, _⟩ | ⟨_, s', h, _, _, _, _, _, hm⟩
+  · exact absurd h (by decide)
+  · exact ⟨s', h, by rw [hm 3]; decide⟩
+
 /-- CALLDATACOPY / CODECOPY memory effect (`copy_to_memory` with zero fill): when the destination region is
     admissible (size ≠ 0, offset + size ≤ u32::MAX), byte i of the region becomes data[dataOff + i], or zero
     where dataOff + i is beyond the data — for any 256-bit dataOff. -/
